@@ -356,7 +356,8 @@ def cases(tier):
                 out.append(c2)
     # RGB under the value-mapping options
     for ign in (False, True):
-        for mm in (None, (0.0, 510.0)):
+        for mm in (None, (0.0, 510.0), (100.0, 355.0), (10.0, 300.0),
+                   (None, 510.0)):
             for mmap in (False, True):
                 out.append(base_case(kind="value", layout="rgb",
                                      shape=[3, 2, 2], fill="position",
